@@ -54,6 +54,19 @@ fn used(r: &Reg) -> usize {
     u
 }
 
+fn m_string(i: usize) -> Vec<u8> {
+    vec![b'm', (i % 256) as u8, b'0' + (i / 256) as u8]
+}
+
+fn long_string(first: u8, len: usize) -> Vec<u8> {
+    let mut v = vec![first];
+    while v.len() < len {
+        v.extend_from_slice("é日😀x".as_bytes());
+    }
+    v.truncate(len);
+    v
+}
+
 fn train_strings(kind: u8, n: u32, seed: u32) -> Vec<Vec<u8>> {
     let mut st = seed as u64 ^ 0xD1C7;
     let mut out = Vec::new();
@@ -92,6 +105,25 @@ fn train_strings(kind: u8, n: u32, seed: u32) -> Vec<Vec<u8>> {
                 out.push(vec![b'k', (i % 256) as u8, (i / 256) as u8, 1]);
                 for _ in 0..4 {
                     out.push(b"heavy".to_vec());
+                }
+            }
+        }
+        4 => {
+            // a crowded dictionary: ~300 distinct strings sharing one first byte, each pushed 2-3 times
+            for i in 0..(260 + n as usize % 60) {
+                let st = m_string(i);
+                for _ in 0..(2 + i % 2) {
+                    out.push(st.clone());
+                }
+            }
+        }
+        5 => {
+            // entries longer than 255 bytes ranked among short ones
+            let long1 = long_string(b'L', 300 + n as usize % 50);
+            let long2 = long_string(b'M', 256);
+            for (st, reps) in [(long1, 6), (b"mid".to_vec(), 5), (long2, 4), (b"abc".to_vec(), 3), (long_string(b'N', 255), 2), (b"zz".to_vec(), 2)] {
+                for _ in 0..reps {
+                    out.push(st.clone());
                 }
             }
         }
@@ -358,6 +390,49 @@ impl Scenario for DictScen {
         let n = 3 + rng.below(if thorough { 80 } else { 30 });
         let heavy = rng.chance(1, if thorough { 6 } else { 12 });
         let mut ops = Vec::new();
+        // structured multi-generation openings (the random tail follows)
+        match rng.below(if thorough { 12 } else { 24 }) {
+            0 => {
+                // a string coded in generation 2 that falls out of a crowded generation-3 dictionary
+                let x = vec![*rng.pick(&[b'x', b'A', 200u8, 3u8]), b'0'];
+                for _ in 0..5 {
+                    ops.push(DOp::Push { t: 0, bytes: x.clone() });
+                }
+                ops.push(DOp::Merge { srcs: vec![0] });
+                ops.push(DOp::Push { t: 1, bytes: x.clone() });
+                ops.push(DOp::Train { t: 1, kind: 4, n: rng.below(1000) as u32, seed: 1 });
+                ops.push(DOp::Merge { srcs: vec![1] });
+                ops.push(DOp::Push { t: 2, bytes: x.clone() });
+                for _ in 0..6 {
+                    ops.push(DOp::Push { t: 2, bytes: m_string(rng.below(300)) });
+                }
+            }
+            1 => {
+                // a full 256-slot table through two generations
+                ops.push(DOp::Train { t: 0, kind: 4, n: rng.below(1000) as u32, seed: 2 });
+                ops.push(DOp::Merge { srcs: vec![0] });
+                for i in 0..40 {
+                    ops.push(DOp::Push { t: 1, bytes: m_string((i * 7 + rng.below(7)) % 300) });
+                }
+                ops.push(DOp::Push { t: 1, bytes: vec![255, 1] });
+                ops.push(DOp::Merge { srcs: vec![1] });
+                for i in 0..40 {
+                    ops.push(DOp::Push { t: 2, bytes: m_string((i * 7 + rng.below(7)) % 300) });
+                }
+            }
+            2 => {
+                // dictionary entries longer than 255 bytes
+                let k = rng.below(1000) as u32;
+                ops.push(DOp::Train { t: 0, kind: 5, n: k, seed: 3 });
+                ops.push(DOp::Merge { srcs: vec![0] });
+                for st in train_strings(5, k, 3) {
+                    if rng.chance(1, 3) {
+                        ops.push(DOp::Push { t: 1, bytes: st });
+                    }
+                }
+            }
+            _ => {}
+        }
         // a small pool of strings this run keeps re-pushing (heavy hitters, entries, prefixes, tags)
         let pool: Vec<Vec<u8>> = (0..1 + rng.below(6))
             .map(|_| {
@@ -388,7 +463,13 @@ impl Scenario for DictScen {
                             }
                             b
                         }
-                        6 => vec![rng.below(256) as u8],
+                        6 => {
+                            if rng.coin() {
+                                vec![rng.below(256) as u8]
+                            } else {
+                                m_string(rng.below(300))
+                            }
+                        }
                         _ => {
                             let len = rng.small_len(8);
                             (0..len).map(|_| rng.below(256) as u8).collect()
@@ -397,7 +478,7 @@ impl Scenario for DictScen {
                     ops.push(DOp::Push { t, bytes });
                 }
                 1 => {
-                    let kind = if heavy { rng.below(4) as u8 } else { *rng.pick(&[0u8, 0, 1, 3]) };
+                    let kind = if heavy { rng.below(6) as u8 } else { *rng.pick(&[0u8, 0, 1, 3, 3, 4, 5]) };
                     ops.push(DOp::Train { t, kind, n: rng.below(1000) as u32, seed: rng.below(1 << 20) as u32 });
                 }
                 2 => {
